@@ -52,6 +52,8 @@ pub enum KeySpec {
     /// suffix (from byte `cut`) of the idx-th raw root key as it was before the current step:
     /// a key crafted to look like another module's or contract's raw prefix
     RootSuffix { idx: u32, cut: u32 },
+    /// `len` times the byte `byte` (keys of 65535 .. 70000 bytes)
+    Long { byte: u8, len: u32 },
 }
 
 #[derive(Clone, Debug, Serialize, Deserialize, PartialEq, Eq)]
@@ -80,6 +82,8 @@ pub enum WriteOp {
     },
     /// the same keys removed again
     BulkRemove { tag: u8, n: u16 },
+    /// one key written `n` times in a row with different values (many log entries, few keys)
+    Hammer { k: KeySpec, n: u16 },
 }
 
 pub fn bulk_key(tag: u8, i: u16) -> Vec<u8> {
@@ -174,6 +178,8 @@ pub enum MsgSpec {
     Redelegate { src: u32, dst: u32, coin: CoinSpec },
     SetWithdraw { to: Target },
     Withdraw { val: u32 },
+    /// DistributionMsg::FundCommunityPool: the stock distribution module does not support it (it must fail there)
+    FundPool { coins: Vec<CoinSpec> },
     Custom { tag: String },
     Ibc { tag: String },
     Gov { n: u64 },
@@ -310,6 +316,7 @@ impl MsgSpec {
             MsgSpec::Redelegate { .. } => "redelegate",
             MsgSpec::SetWithdraw { .. } => "set_withdraw",
             MsgSpec::Withdraw { .. } => "withdraw",
+            MsgSpec::FundPool { .. } => "fund_pool",
             MsgSpec::Custom { .. } => "custom",
             MsgSpec::Ibc { .. } => "ibc",
             MsgSpec::Gov { .. } => "gov",
